@@ -600,16 +600,17 @@ def read_submod_def(line: str):
     parent_name: str = ""
     name: str = ""
     trailing_line = line[submod_match.end(0) :].split("!")[0]
-    trailing_line = trailing_line.strip()
-    parent_match = FRegex.WORD.match(trailing_line)
-    if parent_match:
-        parent_name = parent_match.group(0).lower()
-        if len(trailing_line) > parent_match.end(0) + 1:
-            trailing_line = trailing_line[parent_match.end(0) + 1 :].strip()
-        else:
-            trailing_line = ""
-
-    name_match = FRegex.WORD.search(trailing_line)
+    # SUBMODULE (ancestor-module [: parent-submodule]) name
+    paren_end = trailing_line.find(")")
+    if paren_end < 0:
+        parent_part, name_part = trailing_line, ""
+    else:
+        parent_part, name_part = trailing_line[:paren_end], trailing_line[paren_end + 1 :]
+    # The direct parent is the last identifier inside the parentheses
+    parents = FRegex.WORD.findall(parent_part)
+    if parents:
+        parent_name = parents[-1].lower()
+    name_match = FRegex.WORD.search(name_part)
     if name_match:
         name = name_match.group(0).lower()
     return "smod", SmodInfo(name, parent_name)
